@@ -125,7 +125,7 @@ Theorem zip_output_holds_members epoch d t mt x y hm :
     zip_read x = Some es /\ copy_all x es = Ok outs /\
     let outs' := map (fun o => fst (clamp_member epoch (d, t) o)) outs in
     y = zip_write outs' /\
-    (Forall (fun o => N.of_nat (length (zo_name o)) < 65536) outs' -> N.of_nat (length outs') < 65535 ->
+    (Forall (fun o => N.of_nat (length (zo_name o)) < 65536) outs' ->
      N.of_nat (length (locals_of outs')) < 4294967295 -> N.of_nat (length (central_of outs')) < 4294967296 -> no_locator y ->
      exists es', zip_read y = Some es' /\ length es' = length es /\ copy_all y es' = Ok (map renorm outs')).
 Proof.
@@ -137,7 +137,9 @@ Proof.
   destruct (zip_process_ok _ _ _ _ _ H) as (es & outs & Er & Ec & Ey & _). cbn [fst snd] in *.
   rewrite Er0 in Er. injection Er as <-.
   exists es0, outs. split; [exact Er0|]. split; [exact Ec|]. cbv zeta. split; [exact Ey|].
-  intros Hnames Hn Hl Hc Hnl.
+  intros Hnames Hl Hc Hnl.
+  assert (Hn : N.of_nat (length (map (fun o => fst (clamp_member epoch (d, t) o)) outs)) < 65535).
+  { rewrite map_length, (copy_all_length x es0 outs Ec). unfold zip_in_class in Hcl. apply andb_prop in Hcl. destruct Hcl as [_ Hcl]. apply N.ltb_lt, Hcl. }
   assert (Hwf : Forall wf_but_name outs).
   { apply (copy_all_wf x es0); [|exact Ec].
     pose proof (zip_read_bounded x es0 Hx Er0) as B. pose proof (in_class_sizes es0 Hcl) as S.
@@ -185,7 +187,7 @@ Definition zip_domain (init : Z * (N * N)) (mt : Z) (x : bytes) : option (bool *
           match copy_all x es with
           | Ok outs =>
               let outs' := map (fun o => fst (clamp_member (fst init) (snd init) o)) outs in
-              let dom := forallb (fun o => N.of_nat (length (zo_name o)) <? 65536) outs' && (N.of_nat (length outs') <? 65535) &&
+              let dom := forallb (fun o => N.of_nat (length (zo_name o)) <? 65536) outs' &&
                          (N.of_nat (length (locals_of outs')) <? 4294967295) && (N.of_nat (length (central_of outs')) <? 4294967296) &&
                          negb (has_locator y) in
               let rr := match zip_read y with
@@ -214,10 +216,10 @@ Proof.
               | None => false end).
   intros E. injection E as Edom Err.
   apply andb_prop in Edom. destruct Edom as [Edom Hloc]. apply andb_prop in Edom. destruct Edom as [Edom Hc].
-  apply andb_prop in Edom. destruct Edom as [Edom Hl]. apply andb_prop in Edom. destruct Edom as [Hnames Hn].
-  apply N.ltb_lt in Hc, Hl, Hn. apply negb_true_iff in Hloc.
+  apply andb_prop in Edom. destruct Edom as [Hnames Hl].
+  apply N.ltb_lt in Hc, Hl. apply negb_true_iff in Hloc.
   assert (Hnames' : Forall (fun o => N.of_nat (length (zo_name o)) < 65536) outs').
   { apply Forall_forall. intros o Ho. rewrite forallb_forall in Hnames. apply N.ltb_lt, Hnames, Ho. }
-  destruct (Hrr Hnames' Hn Hl Hc Hloc) as (es' & R & L & C).
+  destruct (Hrr Hnames' Hl Hc Hloc) as (es' & R & L & C).
   unfold rrx in Err. rewrite R, L, C in Err. rewrite Nat.eqb_refl, zouts_eqb_refl in Err. symmetry. exact Err.
 Qed.
